@@ -13,6 +13,7 @@
 #include "verif.h"
 #include "sim.h"
 #include <event2/event.h>
+#include <event2/event_compat.h>
 #include <event2/http.h>
 #include <event2/http_struct.h>
 #include <event2/buffer.h>
@@ -35,6 +36,10 @@ EVRPC_HEADER(NeverReply, msg, kill)
 EVRPC_GENERATE(Message, msg, kill)
 EVRPC_GENERATE(NeverReply, msg, kill)
 }
+
+extern "C" int __lsan_do_recoverable_leak_check(void);
+#define K_UNSTARTED_LEAK "C43/unstarted-request-leaks-http-request"
+#define K_GEN_LEAK "C43/generated-unmarshal-leaks-failed-array-element"
 
 namespace {
 // ---------------------------------------------------------------- value mirror of the generated types
@@ -92,7 +97,20 @@ std::string marshal_msg(const MsgV &v) { struct msg *m = msg_new(); fill_msg(m, 
   std::string out(evbuffer_get_length(b), 0); evbuffer_copyout(b, &out[0], out.size()); evbuffer_free(b); msg_free(m); return out; }
 bool decode_kill(const std::string &body, KillV *out) { struct kill *k = kill_new(); struct evbuffer *b = evbuffer_new(); evbuffer_add(b, body.data(), body.size());
   bool ok = kill_unmarshal(k, b) == 0; if (ok) *out = read_kill(k); evbuffer_free(b); kill_free(k); return ok; }
-bool decode_msg(const std::string &body, MsgV *out) { struct msg *m = msg_new(); struct evbuffer *b = evbuffer_new(); evbuffer_add(b, body.data(), body.size());
+// Would the generated msg_unmarshal() allocate a run element and then fail inside it?  (It then returns without freeing the
+// element: known finding K_GEN_LEAK.)  Mirrors msg_unmarshal's top-level walk with leak-free stand-alone decoders.
+bool gen_leak_possible(const std::string &body) {
+  struct evbuffer *b = evbuffer_new(); evbuffer_add(b, body.data(), body.size()); bool leak = false, from = false, to = false, attack = false;
+  while (evbuffer_get_length(b) > 0) { ev_uint32_t tag;
+    if (evtag_peek(b, &tag) == -1) break;
+    if (tag == MSG_RUN) { struct run *r = run_new(); int rc = evtag_unmarshal_run(b, MSG_RUN, r); run_free(r); if (rc == -1) { leak = true; break; } }
+    else if (tag == MSG_ATTACK) { if (attack) break; struct kill *k = kill_new(); int rc = evtag_unmarshal_kill(b, MSG_ATTACK, k); kill_free(k); if (rc == -1) break; attack = true; }
+    else if (tag == MSG_FROM_NAME) { if (from || evtag_consume(b) == -1) break; from = true; }
+    else if (tag == MSG_TO_NAME) { if (to || evtag_consume(b) == -1) break; to = true; }
+    else break; }
+  evbuffer_free(b); return leak;
+}
+bool decode_msg(const std::string &body, MsgV *out) { if (gen_leak_possible(body)) return false; struct msg *m = msg_new(); struct evbuffer *b = evbuffer_new(); evbuffer_add(b, body.data(), body.size());
   bool ok = body.size() > 0 && msg_unmarshal(m, b) == 0; if (ok) *out = read_msg(m); evbuffer_free(b); msg_free(m); return ok; }
 int id_of(const std::string &from) { if (from.size() < 2 || from[0] != 'q') return -1; int v = 0; size_t i = 1; for (; i < from.size() && from[i] >= '0' && from[i] <= '9'; i++) v = v * 10 + (from[i] - '0'); if (i == 1 || i >= from.size() || from[i] != ';') return -1; return v; }
 std::string show(const KillV &k) { return "{w=" + (k.has_weapon ? esc(k.weapon, 30) : "-") + " a=" + (k.has_action ? esc(k.action, 30) : "-") + " n=" + std::to_string(k.how.size()) + "}"; }
@@ -118,7 +136,7 @@ struct World {
   int lfd = -1; char path[64]; struct sockaddr_un saddr; socklen_t salen = 0;
   std::vector<Rec *> recs; std::vector<Saved> saved; std::vector<Paused> paused; std::vector<RConn> conns; std::vector<MsgV> forwarded_valid[2];
   HookSite sites[4]; bool client_hooks = false, server_hooks = false; bool quiet = false;
-  bool disruptive = false, rewrites = false; int last_nready = 0; int cb_budget = 4; int pool_timeout = -1;
+  bool disruptive = false, rewrites = false, gen_leak_forwarded = false; int last_nready = 0; int cb_budget = 4; int pool_timeout = -1;
   int n_ok = 0, n_timeout = 0, n_badpayload = 0, n_unstarted = 0, n_hookabort = 0, n_pauses = 0, n_resumes = 0, n_handler = 0, n_deferred = 0, n_cuts = 0, n_override_ok = 0, n_incb_req = 0;
 };
 World *W;
@@ -157,7 +175,8 @@ void client_cb(struct evrpc_status *st, struct msg *m, struct kill *k, void *arg
       CHECK(w.disruptive, "C43/unexpected-failure", "request q%d: status TIMEOUT (connection failure) in a case without connection faults, timeouts or clock advances", r->id);
       w.n_timeout++; break;
     case EVRPC_STATUS_ERR_BADPAYLOAD:
-      CHECK(r->server_non200 || w.rewrites || (r->has_override && !r->override_ok), "C43/unexpected-badpayload", "request q%d: status BADPAYLOAD but the server sent a well-formed reply and nothing rewrote it", r->id);
+      // a refused connection completes the HTTP request with an empty response object (code 0), which evrpc reports as BADPAYLOAD
+      CHECK(r->server_non200 || w.rewrites || w.disruptive || (r->has_override && !r->override_ok), "C43/unexpected-badpayload", "request q%d: status BADPAYLOAD but the server sent a well-formed reply and nothing rewrote it or disturbed the connection", r->id);
       w.n_badpayload++; break;
     case EVRPC_STATUS_ERR_UNSTARTED: w.n_unstarted++; break;
     case EVRPC_STATUS_ERR_HOOKABORTED: w.n_hookabort++; break;
@@ -199,6 +218,7 @@ int hook_cb(void *ctx, struct evhttp_request *req, struct evbuffer *evbuf, void 
   else if (hs->site == 2) r = rec_from_buf(w, evbuf);   // may be NULL when the relay rewrote the request
   else { EVRPC_STRUCT(Message) *rs = (EVRPC_STRUCT(Message) *)ctx; MsgV v = read_msg(rs->request); int id = id_of(v.from); if (id >= 0 && id < (int)w.recs.size()) r = w.recs[id]; }
   int d = hook_decide(w);
+  if (d == EVRPC_TERMINATE && hs->site == 0 && verif_known(K_UNSTARTED_LEAK)) { verif_known_skipped(K_UNSTARTED_LEAK); d = EVRPC_CONTINUE; }
   TR("    hook site=%d q%d -> %s", hs->site, r ? r->id : -1, d == EVRPC_CONTINUE ? "CONTINUE" : d == EVRPC_TERMINATE ? "TERMINATE" : "PAUSE");
   if (d == EVRPC_PAUSE) { w.paused.push_back(Paused{hs->vbase, ctx, hs->site}); w.n_pauses++; }
   if (d == EVRPC_TERMINATE && r) { if (hs->site == 0) r->out_term = true; else if (hs->site == 1) r->in_term = true; else r->server_non200 = true; }
@@ -214,6 +234,7 @@ Rec *rec_of_paused(World &w, const Paused &p) {   // only used to attribute resu
 void resume_one(World &w, size_t i, int res) {
   Paused p = w.paused[i]; w.paused.erase(w.paused.begin() + i);
   Rec *r = rec_of_paused(w, p);
+  if (res == EVRPC_TERMINATE && p.site == 0 && verif_known(K_UNSTARTED_LEAK)) { verif_known_skipped(K_UNSTARTED_LEAK); res = EVRPC_CONTINUE; }
   TR("resume site=%d q%d with %s", p.site, r ? r->id : -1, res == EVRPC_CONTINUE ? "CONTINUE" : "TERMINATE");
   if (res == EVRPC_TERMINATE && r) { if (p.site == 0) r->out_term = true; else if (p.site == 1) r->in_term = true; else r->server_non200 = true; }
   w.n_resumes++;
@@ -321,6 +342,7 @@ bool relay_step(World &w) {
         if (dir == 1) c.cur_non200 = head.compare(0, 12, "HTTP/1.1 200") != 0;
         if (rewrite) { std::string nb = mutate_body(w, c, body, dir);
           TR("  relay: conn %zu rewrites %s #%d (q%d): %zu -> %zu bytes", ci, dir ? "response" : "request", no, c.cur_id, body.size(), nb.size());
+          if (dir == 0 && gen_leak_possible(nb)) { if (verif_known(K_GEN_LEAK)) { verif_known_skipped(K_GEN_LEAK); nb.clear(); } else { w.gen_leak_forwarded = true; TR("  relay: this body fails inside a run element"); } }
           if (dir == 0) { Rec *r = c.cur_id >= 0 ? w.recs[c.cur_id] : nullptr; MsgV v; bool ok = decode_msg(nb, &v);
             int kind = head.find("/.rpc.NeverReply") != std::string::npos ? 1 : 0;
             if (ok) w.forwarded_valid[kind].push_back(v);
@@ -378,10 +400,12 @@ extern "C" int LLVMFuzzerTestOneInput(const uint8_t *data, size_t size) {
   int fds0 = count_fds();
   sim_clock_enable(SIM_START_US);
   sim_set_wait_hook(wait_hook, nullptr);
-  struct event_config *cfg = event_config_new();
+  // evhttp connections that are "newly created" for a pool have no base of their own, which only works with the legacy
+  // current base: event_init() (backend chosen through the documented EVENT_NO* environment switches)
   int backend = s.below(3);
-  if (backend == 1) event_config_avoid_method(cfg, "epoll"); else if (backend == 2) { event_config_avoid_method(cfg, "epoll"); event_config_avoid_method(cfg, "poll"); }
-  w.base = event_base_new_with_config(cfg); event_config_free(cfg);
+  unsetenv("EVENT_NOEPOLL"); unsetenv("EVENT_NOPOLL");
+  if (backend >= 1) setenv("EVENT_NOEPOLL", "1", 1); if (backend == 2) setenv("EVENT_NOPOLL", "1", 1);
+  w.base = event_init();
   if (!w.base) { verif_case_end(0, s.h); W = nullptr; return 0; }
   // server
   w.http = evhttp_new(w.base);
@@ -396,7 +420,7 @@ extern "C" int LLVMFuzzerTestOneInput(const uint8_t *data, size_t size) {
   // relay + client
   snprintf(w.path, sizeof w.path, "/tmp/verif-c43-%d.sock", (int)getpid());
   relay_listen(w);
-  w.pool = evrpc_pool_new(w.base);
+  w.pool = evrpc_pool_new(s.flag() ? nullptr : w.base);   // NULL = "single-threaded application": the current base
   w.nevcon = 1 + s.below(2);
   for (int i = 0; i < w.nevcon; i++) { w.evcon[i] = evhttp_connection_base_bufferevent_unix_new(nullptr, nullptr, w.path);   /* "newly created": the pool associates its base */ CHECK(w.evcon[i] != nullptr, "harness/evcon", "evhttp_connection_base_bufferevent_unix_new failed"); evrpc_pool_add_connection(w.pool, w.evcon[i]); }
   { int t = s.below(4); w.pool_timeout = t == 0 ? -1 : t == 1 ? 1 : t == 2 ? 3 : 30; if (w.pool_timeout > 0) evrpc_pool_set_timeout(w.pool, w.pool_timeout); }
@@ -451,6 +475,10 @@ extern "C" int LLVMFuzzerTestOneInput(const uint8_t *data, size_t size) {
   int fds1 = count_fds();
   CHECK(fds1 == fds0, "C43/fd-leak", "open fds before the case %d, after %d", fds0, fds1);
 
+  if (w.n_unstarted)   // ledger clause for the one path that completes a request without ever handing its evhttp_request to a connection
+    CHECK(__lsan_do_recoverable_leak_check() == 0, K_UNSTARTED_LEAK, "%d request(s) completed with status UNSTARTED (output hook terminated them); LeakSanitizer finds unreachable library allocations afterwards (the evhttp_request built for them)", w.n_unstarted);
+  if (w.gen_leak_forwarded)
+    CHECK(__lsan_do_recoverable_leak_check() == 0, K_GEN_LEAK, "a request body whose run[] element is malformed was delivered to the server; LeakSanitizer finds unreachable allocations afterwards (msg_unmarshal generated by event_rpcgen.py drops the element it allocated)");
   bool faulted = w.n_timeout || w.n_badpayload || w.n_unstarted || w.n_hookabort || w.n_override_ok;
   int nontrivial = w.n_ok >= 1 && (faulted || w.n_resumes || w.n_deferred || w.recs.size() >= 3 || w.n_incb_req);
   if (w.n_ok) verif_class("ok"); if (w.n_timeout) verif_class("status_timeout"); if (w.n_badpayload) verif_class("status_badpayload"); if (w.n_unstarted) verif_class("status_unstarted");
